@@ -11,10 +11,12 @@ DEX = "androguard/core/dex/__init__.py"
 AXML = "androguard/core/axml/__init__.py"
 APKF = "androguard/core/apk/__init__.py"
 META = {
-    "technique": 'contract-based deductive verification: symbolic execution of the real functions against sidecar contracts (z3/cvc5) for the proved units; bounded contract evaluation (enumerated scope / independent writer) for the rest',
+    "technique": 'contract-based deductive verification: symbolic execution of the real functions against sidecar contracts (z3/cvc5) for the proved units, inductive loop invariants and termination variants on the real loops (unbounded in length and iteration count); bounded contract evaluation (enumerated scope / independent writer) for the rest',
     "level": "other",
     "partial": True,
-    "level_text": "Proof (all contents of short inputs): the loops named in the property are executed on streams of symbolic bytes "
+    "level_text": "Loop contracts with termination variants on streams of ANY length and content: read_null_terminated_string (C06 "
+                  "unit), the ARSCHeader dummy-data skip loop, the DebugInfoItem opcode loop, the HiddenApiClassDataItem offsets "
+                  "loop (variant: bytes left), and the linear-sweep loop (C02 unit, variant max_idx - idx). Proof (all contents of short inputs): the loops named in the property are executed on streams of symbolic bytes "
                   "and every path is proved to end (result or error): read_null_terminated_string with no NUL at all (0..257 bytes), "
                   "the ARSCHeader dummy-data skip loop (8..14 bytes, every content), the DebugInfoItem opcode loop (0..5 bytes). The "
                   "sweep loop's progress (positive length, resumes at offset+length) is C02's obligation. Bounded: the four whole "
